@@ -195,7 +195,13 @@ static void *thread_main(void *arg) {
     memcpy(nm, t->name, t->namelen);
     prctl(PR_SET_NAME, nm, 0, 0, 0);
   }
-  if (t->kind != K_SLEEPER) block_all_signals();
+  if (t->kind != K_SLEEPER) {
+    block_all_signals();
+  } else {
+    sigset_t s; // threads inherit main's all-blocked mask: sleepers take signals
+    sigfillset(&s);
+    pthread_sigmask(SIG_UNBLOCK, &s, NULL);
+  }
   t->tid = (int)syscall(SYS_gettid);
   switch (t->kind) {
   case K_PARKED:
